@@ -69,9 +69,14 @@ fn spawn_hang_monitor(out: String) {
             std::thread::sleep(std::time::Duration::from_millis(500));
             let g = RUNNING.lock().unwrap();
             if let Some((t0, body)) = g.as_ref() {
-                if t0.elapsed().as_secs() >= HANG_SECS {
+                if t0.elapsed().as_secs() >= std::env::var("FR_HANG_SECS").ok().and_then(|v| v.parse().ok()).unwrap_or(HANG_SECS) {
                     std::fs::write(format!("{}.hang", out), body).ok();
                     eprintln!("case did not complete within {} s; left {}.hang", HANG_SECS, out);
+                    if std::env::var("FR_HANG_KEEP").is_ok() {
+                        // debugging aid: keep the process for a debugger
+                        drop(g);
+                        std::thread::sleep(std::time::Duration::from_secs(3600));
+                    }
                     std::process::exit(3);
                 }
             }
@@ -212,9 +217,27 @@ fn worker(args: &[String]) -> i32 {
     0
 }
 
+/// the overlapping-flush harness serves three properties; each looks at its own verdicts
+fn flushrace_filter(prop: &str) -> impl Fn(&String) -> bool {
+    let p = prop.to_string();
+    move |m: &String| match p.as_str() {
+        "C07" => m.starts_with("BLOCKED"),
+        "C08" => m.starts_with("RETAINED"),
+        _ => !m.starts_with("BLOCKED") && !m.starts_with("RETAINED"),
+    }
+}
+fn flushrace_sig(prop: &str) -> &'static str {
+    match prop {
+        "C07" => "blocked-on-collector:first-call-during-report",
+        "C08" => "retained-after-overlapping-flushes",
+        _ => "flush-overlap:not-delivered-by-flush",
+    }
+}
+
 fn flushrace_worker(prop: &str, seed: u64, wid: u64, cases: u32, out: &str, known: &[String]) -> i32 {
     // C01 looks at delivery by flush(), C07 at tracing calls blocking on the collector
     let want_blocked = prop == "C07";
+    let keep = flushrace_filter(prop);
     quiet_panics();
     flushrace::install();
     let strategy = flushrace::strategy();
@@ -222,13 +245,13 @@ fn flushrace_worker(prop: &str, seed: u64, wid: u64, cases: u32, out: &str, know
     let mut runner = TestRunner::new_with_rng(cfg, TestRng::from_seed(RngAlgorithm::ChaCha, &seed_bytes(seed, wid, "flushrace")));
     let start = std::time::Instant::now();
     let st = std::cell::RefCell::new((0u64, HashSet::<u64>::new(), Vec::<serde_json::Value>::new(), false, 0u64));
-    let sig = if want_blocked { "blocked-on-collector:first-call-during-report".to_string() } else { "flush-overlap:not-delivered-by-flush".to_string() };
+    let sig = flushrace_sig(prop).to_string();
     let res = runner.run(&strategy, |c| {
         let r = flushrace::run(&c);
         let mut s = st.borrow_mut();
         let fails = match r {
             Ok(f) => {
-                let mut f: Vec<String> = f.into_iter().filter(|m| m.starts_with("BLOCKED") == want_blocked).collect();
+                let mut f: Vec<String> = f.into_iter().filter(|m| keep(m)).collect();
                 if want_blocked && !f.is_empty() {
                     // a time-out is only believed when it reproduces three times out of three
                     for _ in 0..2 {
@@ -266,7 +289,7 @@ fn flushrace_worker(prop: &str, seed: u64, wid: u64, cases: u32, out: &str, know
     let s = st.into_inner();
     let mut failure = serde_json::Value::Null;
     if let Err(TestError::Fail(reason, c)) = &res {
-        let fails: Vec<String> = flushrace::run(c).unwrap_or_default().into_iter().filter(|m| m.starts_with("BLOCKED") == want_blocked).collect();
+        let fails: Vec<String> = flushrace::run(c).unwrap_or_default().into_iter().filter(|m| keep(m)).collect();
         failure = json!({"signature": reason.to_string(), "program": c, "violations": fails.iter().map(|f| json!({"sig": sig, "msg": f})).collect::<Vec<_>>()});
     }
     let mut nt: Vec<u64> = s.1.iter().cloned().collect();
@@ -308,7 +331,7 @@ fn bgdeliver_worker(prop: &str, variant: &str, seed: u64, wid: u64, cases: u32, 
     quiet_panics();
     let interval_ms = if variant == "bgdeliver25" { 25 } else { 0 };
     bgdeliver::install(interval_ms);
-    let strategy = bgdeliver::strategy();
+    let strategy = bgdeliver::strategy_for(prop);
     let cfg = Config { cases, failure_persistence: None, max_shrink_iters: 40, ..Config::default() };
     let mut runner = TestRunner::new_with_rng(cfg, TestRng::from_seed(RngAlgorithm::ChaCha, &seed_bytes(seed, wid, variant)));
     let start = std::time::Instant::now();
@@ -439,11 +462,12 @@ fn replay(args: &[String]) -> i32 {
         flushrace::install();
         let c: flushrace::FrCase = serde_json::from_value(v["program"].clone()).expect("flushrace case");
         // schedule-dependent towards missing only: try a few times
-        let want_blocked = v["property"].as_str() == Some("C07");
-        let sig = if want_blocked { "blocked-on-collector:first-call-during-report" } else { "flush-overlap:not-delivered-by-flush" };
+        let rp = v["property"].as_str().unwrap_or("C01").to_string();
+        let keep = flushrace_filter(&rp);
+        let sig = flushrace_sig(&rp);
         let mut fails = vec![];
         for _ in 0..5 {
-            fails = flushrace::run(&c).unwrap_or_default().into_iter().filter(|m| m.starts_with("BLOCKED") == want_blocked).collect::<Vec<_>>();
+            fails = flushrace::run(&c).unwrap_or_default().into_iter().filter(|m| keep(m)).collect::<Vec<_>>();
             if !fails.is_empty() {
                 break;
             }
